@@ -21,6 +21,7 @@ from __future__ import annotations
 import ast
 
 from ..repo import AnalysisError, own_nodes
+from .roles import dispatcher_roles
 from .common import DISPATCHER, is_notify, resolve_root
 
 MANIFEST = {
@@ -220,7 +221,8 @@ def run(ctx):
 
     def readiness(ev):
         t = ctx.norm.xtext(ev.fi, ev.node)
-        return "is_operation_ready" in t or ("_job_next_operation_index" in t and "position_in_job" in t)
+        idx = dispatcher_roles(ctx)["job_index"]
+        return "is_operation_ready" in t or ((idx in t or "job_next_operation_index" in t) and "position_in_job" in t)
 
     def eligibility(ev):
         n = ev.node
@@ -299,6 +301,9 @@ def run(ctx):
                         loc=dispatch.loc(n),
                     )
 
+    if n_rebind == 0:
+        chk.ok("R09.e", dispatch.qualname, dispatch.loc(), "no request parameter is ever rebound")
+
     # ---------------------------------------------------------------- R09.f
     from .c16 import falsy_id_tests
 
@@ -311,7 +316,7 @@ def run(ctx):
 
     def joblen(ev):
         t = ctx.norm.xtext(ev.fi, ev.node)
-        return "len(" in t and "_job_next_operation_index" in t
+        return "len(" in t and (dispatcher_roles(ctx)["job_index"] in t or "job_next_operation_index" in t)
 
     if has_raise_under(np_, joblen, "job length", nxt):
         chk.ok("R09.d", nxt.qualname, nxt.loc(), "raises when the job has no operations left")
